@@ -1,4 +1,6 @@
 import DdsModel.Eval
+import Generated.Facts
+import DdsProofs.SigInj
 /-!
 # C03 — signatures depend only on program content, never on the environment
 
@@ -11,7 +13,11 @@ for those the claim rests on the byte-exact correspondence, DESIGN §5 C03):
 * `history_irrelevant`: the analysis is a function of the world, the request and those committed keys;
   no other state survives from earlier evaluations in the process (the model has no such state: since the
   `fix:` commit that removed the process-wide lookup, neither has the code — the correspondence runs
-  every program after earlier evaluations and redefinitions in the same process).
+  every program after earlier evaluations and redefinitions in the same process);
+* `sig_keys_table`: the vocabulary of signature keys is re-read from the source of `dds/introspect.py` on every run
+  (every `HK(...)` expression): it is exactly the vocabulary of the model, whose six classes of `_build_return_sig`
+  have pairwise different categories (`sig_key_classes`) — what `buildReturnSig_inj` (signature composition is
+  injective) rests on. A new kind of key in the code makes this table, hence the build, fail.
 -/
 namespace Dds.C03
 open Dds
@@ -51,5 +57,16 @@ theorem history_irrelevant (m : Nat) (W : World) (S S' : PStore) (rq : Request) 
     | nil => rfl
     | cons p ps ih => simp only [fetchPaths, h, ih]
   simp only [analysisPhase, hf]
+
+/-- the signature-key vocabulary of the code (Generated/Facts.lean, regenerated from /repo) is the model's -/
+theorem sig_keys_table : Facts.sigKeys =
+    ["body_sig", "function_input_hash", "function_inter_hash", "fun_dep_*", "dep_*", "arg_context", "arg_*",
+     "ext_dep_*", "ext_variable_*"] := by decide
+
+/-- the six classes of keys of a return signature are told apart by their first characters, whatever follows the prefix -/
+theorem sig_key_classes (n : String) :
+    keyCat "body_sig" = 0 ∧ keyCat "arg_context" = 1 ∧ keyCat ("arg_" ++ n) = 1 ∧ keyCat ("dep_" ++ n) = 2 ∧
+    keyCat ("fun_dep_" ++ n) = 3 ∧ keyCat ("ext_dep_" ++ n) = 4 ∧ keyCat ("ext_variable_" ++ n) = 5 :=
+  ⟨keyCat_body, keyCat_argctx, keyCat_arg n, keyCat_dep n, keyCat_fun n, keyCat_extdep n, keyCat_extvar n⟩
 
 end Dds.C03
